@@ -256,7 +256,7 @@ func cmdDump(args []string) int {
 			if *smt {
 				fmt.Println(q.Script)
 			}
-			if *keep != "" && q.Result != q.Expect {
+			if *keep != "" && (q.Result != q.Expect || q.Time > 2.0) {
 				os.MkdirAll(*keep, 0o755)
 				fn := filepath.Join(*keep, fmt.Sprintf("%s.p%d.smt2", sanitize(o.Name), q.PathID))
 				os.WriteFile(fn, []byte(header(specs, x)+q.Script+"(check-sat)\n"), 0o644)
@@ -298,6 +298,34 @@ func obligationStatus(o *Obligation) (string, *Query) {
 	status := "proved"
 	if o.Expect == "sat" {
 		status = "covered"
+	}
+	if o.Expect == "sat" && len(o.Queries) > 0 && o.Queries[0].Role != "" {
+		// call cover: vacuous only when the call is reachable (some state before it is satisfiable)
+		// and no state after assuming the callee's contract is; a call in dead code is not an alarm
+		preSat, postSat := false, false
+		for _, q := range o.Queries {
+			if q.Result == "sat" {
+				if q.Role == "post" {
+					postSat = true
+				} else {
+					preSat = true
+				}
+			}
+		}
+		if postSat || !preSat {
+			return "covered", nil
+		}
+		for _, q := range o.Queries {
+			if q.Role == "post" && q.Result != "unsat" {
+				return "covered", nil // undecided: no alarm
+			}
+		}
+		for _, q := range o.Queries {
+			if q.Role == "post" {
+				return "VACUOUS", q
+			}
+		}
+		return "covered", nil
 	}
 	if o.Expect == "sat" {
 		// a cover obligation holds when at least one of its queries is satisfiable
